@@ -701,6 +701,37 @@ Theorem C07_list_zip_remove_none :
 Proof. exact CC.List_.ListProofs11.zip_remove_none. Qed.
 Print Assumptions C07_list_zip_remove_none.
 
+(** zip add after a yield: each list gets its element in a fresh node of its own family directly behind the yielded node; if either node is refused nothing has changed *)
+Theorem C07_list_zip_add :
+  forall (s1 s2 : clist) (z : ziter) (done1 : list (N * N)) (x1 d1 : N)
+           (added1 rest1 done2 : list (N * N)) (x2 d2 : N) (added2 rest2 : list (N * N)) 
+           (a : alloc_st) (F : list block) (e1 e2 : N),
+         ListHeap.lrep s1 (done1 ++ (x1, d1) :: added1 ++ rest1) ->
+         ListHeap.lrep s2 (done2 ++ (x2, d2) :: added2 ++ rest2) ->
+         ListHeap.lok a ->
+         Permutation (live a)
+           (ListHeap.blocks s1 (done1 ++ (x1, d1) :: added1 ++ rest1) ++
+            ListHeap.blocks s2 (done2 ++ (x2, d2) :: added2 ++ rest2) ++ F) ->
+         z1_last z = x1 ->
+         z2_last z = x2 ->
+         exists (st : stat) (s1' s2' : clist) (z' : ziter) (a' : alloc_st),
+           zip_add s1 s2 z e1 e2 a = Ok (st, s1', s2', z', a') /\
+           (st = CC_OK /\
+            (exists id1 id2 : N,
+               ListHeap.lrep s1' (done1 ++ (x1, d1) :: (id1, e1) :: added1 ++ rest1) /\
+               ListHeap.lrep s2' (done2 ++ (x2, d2) :: (id2, e2) :: added2 ++ rest2) /\
+               ListHeap.lok a' /\
+               Permutation (live a')
+                 (ListHeap.blocks s1' (done1 ++ (x1, d1) :: (id1, e1) :: added1 ++ rest1) ++
+                  ListHeap.blocks s2' (done2 ++ (x2, d2) :: (id2, e2) :: added2 ++ rest2) ++ F) /\
+               ListProofs1.same_hdr s1 s1' /\
+               ListProofs1.same_hdr s2 s2' /\
+               z_index z' = z_index z + 1 /\
+               z1_last z' = x1 /\ z2_last z' = x2 /\ z1_next z' = z1_next z /\ z2_next z' = z2_next z) \/
+            st = CC_ERR_ALLOC /\ s1' = s1 /\ s2' = s2 /\ z' = z /\ live a' = live a).
+Proof. exact CC.List_.ListProofs11.zip_add_spec. Qed.
+Print Assumptions C07_list_zip_add.
+
 (** zip remove after a yield: exactly the two yielded nodes leave their lists and the ledger; the traversal position is unchanged and there is no current pair any more *)
 Theorem C07_list_zip_remove :
   forall (s1 s2 : clist) (z : ziter) (done1 : list (N * N)) (x1 d1 : N) (rest1 done2 : list (N * N))
@@ -832,6 +863,39 @@ Theorem C07_slist_zip_remove_none :
          szip_remove s1 s2 z a = Ok (CC_ERR_VALUE_NOT_FOUND, 0, 0, s1, s2, z, a).
 Proof. exact CC.SList.SListProofs8.szip_remove_none. Qed.
 Print Assumptions C07_slist_zip_remove_none.
+
+(** CC_SList zip add after a yield: each list gets its element in a fresh node of its own family directly behind the yielded node; a refusal changes nothing *)
+Theorem C07_slist_zip_add :
+  forall (s1 s2 : slist) (z : sziter) (D1 : list (N * N)) (x1 d1 : N) (A1 rest1 D2 : list (N * N))
+           (x2 d2 : N) (A2 rest2 : list (N * N)) (a : alloc_st) (F : list block) (e1 e2 : N),
+         SListHeap.srep s1 (D1 ++ (x1, d1) :: A1 ++ rest1) ->
+         SListHeap.srep s2 (D2 ++ (x2, d2) :: A2 ++ rest2) ->
+         ListHeap.lok a ->
+         Permutation (live a)
+           (SListHeap.sblocks s1 (D1 ++ (x1, d1) :: A1 ++ rest1) ++
+            SListHeap.sblocks s2 (D2 ++ (x2, d2) :: A2 ++ rest2) ++ F) ->
+         sz1_current z = x1 ->
+         sz2_current z = x2 ->
+         exists (st : stat) (s1' s2' : slist) (z' : sziter) (a' : alloc_st),
+           szip_add s1 s2 z e1 e2 a = Ok (st, s1', s2', z', a') /\
+           (st = CC_OK /\
+            (exists id1 id2 : N,
+               SListHeap.srep s1' (D1 ++ (x1, d1) :: (id1, e1) :: A1 ++ rest1) /\
+               SListHeap.srep s2' (D2 ++ (x2, d2) :: (id2, e2) :: A2 ++ rest2) /\
+               ListHeap.lok a' /\
+               Permutation (live a')
+                 (SListHeap.sblocks s1' (D1 ++ (x1, d1) :: (id1, e1) :: A1 ++ rest1) ++
+                  SListHeap.sblocks s2' (D2 ++ (x2, d2) :: (id2, e2) :: A2 ++ rest2) ++ F) /\
+               SListProofs1.ssame_hdr s1 s1' /\
+               SListProofs1.ssame_hdr s2 s2' /\
+               sz_index z' = sz_index z + 1 /\
+               sz1_current z' = x1 /\
+               sz2_current z' = x2 /\
+               sz1_next z' = sz1_next z /\
+               sz2_next z' = sz2_next z /\ sz1_prev z' = sz1_prev z /\ sz2_prev z' = sz2_prev z) \/
+            st = CC_ERR_ALLOC /\ s1' = s1 /\ s2' = s2 /\ z' = z /\ live a' = live a).
+Proof. exact CC.SList.SListProofs8.szip_add_spec. Qed.
+Print Assumptions C07_slist_zip_add.
 
 (** CC_SList zip remove after a yield: exactly the two yielded nodes leave their lists and the ledger *)
 Theorem C07_slist_zip_remove :
